@@ -18,8 +18,6 @@ LEVEL = 'other'
 
 # loops of the library, by function, with the reason they terminate
 KNOWN_LOOPS = {
-    'R_::processTransitions': 'substitution loop (C04.a)',
-    'R_::initialEnter': 'substitution loop (C04.a)',
     'FullControlT::updatePlan': 'walks the plan list once (each iteration advances the iterator; list integrity is C10)',
     'PlanT::clearTasks': 'walks the plan list once, removing each task',
     'PlanT::clear': 'counted over STATE_COUNT',
@@ -38,55 +36,79 @@ def limit_of(F, fn):
 
 
 def substitution_loops(run, F, E, label):
-    for name, guard in (('processTransitions', 'cancelledByGuards'), ('initialEnter', 'cancelledByEntryGuards')):
-        for fn in F.find('R_', name):
-            K = limit_of(F, fn)
-            run.require(K is not None, 'SUBSTITUTION_LIMIT constant not found for ' + fn.short)
-            lps = loops.loops_of(fn)
-            ok = len(lps) == 1 and lps[0].kind == 'counted'
-            detail = None
-            if ok:
-                L = lps[0]
-                ty = L.var.get('ty', '')
-                conds = {
-                    'starts at 0': L.start == 0,
-                    'steps by +1': L.step == 1,
-                    'bounded by i < K with K == SubstitutionLimit (%d)' % K: (L.bound_op == '<' and L.bound_val == K) or (L.bound_op == '<=' and L.bound_val == K - 1) or (L.bound_op == '!=' and L.bound_val == K),
-                    'counter is a local that only the increment writes': not loops.body_writes_var(L, L.var['id']) and not L.var.get('ref'),
-                    'counter cannot wrap (K <= max of its type)': K <= (255 if 'char' in ty else 65535),
-                }
-                bad = [k for k, v in conds.items() if not v]
-                if bad:
-                    ok = False
-                    detail = {'failed': bad, 'bound': (L.bound_op, L.bound_val), 'K': K}
-            else:
-                detail = [(l.kind, l.start, l.bound_op, l.bound_val, l.step) for l in lps]
-            run.ob('C04.a', 'R_::%s [limit %d, %s]: counted loop i=0; i<%d; ++i' % (name, K, label, K), ok, where=fn.pat, detail=detail,
-                   key='R_::%s is not bounded by the substitution limit' % name)
-            # guard rounds per iteration
-            c = cfgmod.cfg_of(fn)
-            gcalls = c.events(('call',), lambda n: n.e.get('m') == guard)
-            inside = [n for n in gcalls if c.in_loop(n)]
-            outside = [n for n in gcalls if not c.in_loop(n)]
-            # at most one per iteration: no two guard calls in the loop where one dominates the other without leaving the iteration
-            per_iter_ok = len(inside) == 1
-            want_out = 1 if name == 'initialEnter' else 0
-            run.ob('C04.a', 'R_::%s consults guards at most once per iteration (%d site) and %d time(s) before the loop [%s]' % (name, len(inside), want_out, label),
-                   per_iter_ok and len(outside) == want_out, where=fn.pat,
-                   detail={'inside': len(inside), 'outside': len(outside)}, key='R_::%s has more than one guard round per iteration' % name)
-            # nothing else in the loop body loops
-            nested = [l for l in lps[1:]]
-            run.ob('C04.a', 'R_::%s has no nested loop [%s]' % (name, label), not nested, where=fn.pat, key='R_::%s has a nested loop' % name)
+    """the loops that apply outstanding requests, wherever they live (entry function or a helper it calls)"""
+    for root_name, guard_names in (('processRequest', ('cancelledByGuards',)), ('initialEnter', ('cancelledByEntryGuards',))):
+        for root in F.find('R_', root_name):
+            K = limit_of(F, root)
+            run.require(K is not None, 'SUBSTITUTION_LIMIT constant not found for ' + root.short)
+            found = anchors.substitution_loops(F, E, root)
+            if not found:
+                raise AnalysisBroken('no loop that applies outstanding requests is reachable from R_::%s' % root_name)
+            for fn, st in found:
+                L = loops.classify(st)
+                ok = L.kind == 'counted'
+                detail = None
+                if ok:
+                    ty = L.var.get('ty', '')
+                    conds = {
+                        'starts at 0': L.start == 0,
+                        'steps by +1': L.step == 1,
+                        'bounded by i < K with K == SubstitutionLimit (%d)' % K: (L.bound_op == '<' and L.bound_val == K) or (L.bound_op == '<=' and L.bound_val == K - 1) or (L.bound_op == '!=' and L.bound_val == K),
+                        'counter is a local that only the increment writes': not loops.body_writes_var(L, L.var['id']) and not L.var.get('ref'),
+                        'counter cannot wrap (K <= max of its type)': K <= (255 if 'char' in ty else 65535),
+                    }
+                    bad = [k for k, v in conds.items() if not v]
+                    if bad:
+                        ok = False
+                        detail = {'failed': bad, 'bound': (L.bound_op, L.bound_val), 'K': K}
+                else:
+                    detail = (L.kind, L.start, L.bound_op, L.bound_val, L.step)
+                run.ob('C04.a', 'substitution loop of R_::%s (in %s) [limit %d, %s]: counted loop i=0; i<%d; ++i' % (root_name, fn.short, K, label, K), ok,
+                       where=st.get('l') or fn.pat, detail=detail, key='the substitution loop reached from R_::%s is not bounded by the substitution limit' % root_name)
+                # guard rounds per iteration: call sites in the loop body that reach a guard dispatcher
+                c = cfgmod.cfg_of(fn)
+
+                def is_guard_round(n):
+                    if n.kind != 'call':
+                        return False
+                    names = set()
+                    if n.e.get('pm'):
+                        for r in E.resolve_pm_all(fn, n.e):
+                            names.add(r.get('m'))
+                    elif n.e.get('fn') is not None and F.fn(n.e['fn']) is not None:
+                        names.add(F.fn(n.e['fn']).m)
+                    return bool(names & {'cancelledByGuards', 'cancelledByEntryGuards'})
+                try:
+                    gcalls = c.events(pred=is_guard_round)
+                except AnalysisBroken:
+                    gcalls = []
+                inside = [n for n in gcalls if c.in_loop(n)]
+                nested = [x for x in ir.walk_stmts(st.get('body')) if x.get('s') in ('for', 'while', 'do', 'rfor')]
+                run.ob('C04.a', 'the substitution loop of R_::%s consults guards at one site per iteration (%d) and has no nested loop [%s]' % (root_name, len(inside), label),
+                       len(inside) == 1 and not nested, where=fn.pat, detail={'guard sites in the loop': len(inside), 'nested loops': len(nested)},
+                       key='the substitution loop reached from R_::%s has more than one guard round per iteration' % root_name)
+            if root_name == 'initialEnter':
+                c = cfgmod.cfg_of(root)
+                pre = [n for n in c.events(('call',)) if n.e.get('m') == 'cancelledByEntryGuards' and not c.in_loop(n)]
+                own_loop = any(fn is root for fn, st in found)
+                want = 1
+                run.ob('C04.a', 'R_::initialEnter evaluates the initial state\'s entry guards exactly once before the redirect loop [%s]' % label,
+                       len(pre) == want, where=root.pat, detail={'guard evaluations outside the loop': len(pre)},
+                       key='R_::initialEnter does not evaluate the initial entry guards exactly once')
 
 
 def all_loops(run, F, E):
     n = 0
+    subst = []
+    for root_name in ('processRequest', 'initialEnter'):
+        for root in F.find('R_', root_name):
+            subst += anchors.substitution_loops(F, E, root)
     for fn in F.fns:
         lps = loops.loops_of(fn)
         if not lps:
             continue
         n += len(lps)
-        known = fn.short in KNOWN_LOOPS
+        known = fn.short in KNOWN_LOOPS or any(f is fn for f, _ in subst)
         if not known:
             # is it reachable from request processing / activation?
             raise AnalysisBroken('unclassified loop in %s (%s): add it to KNOWN_LOOPS with the reason it terminates' % (fn.short, fn.pat))
